@@ -117,23 +117,31 @@ func group[T Opcoder](opcodes []opcode[T]) ([]maskGroup[T], error) {
 // of one another. In other words, the relation of being conflicting is in
 // general non-symmetrical. This holds even in case all instructions have the
 // same length as mask of one instruction can be bitwise subset of another mask.
-func checkConflicts[T Opcoder](groups []maskGroup[T]) error {
-	// Make sure that no pair of opcodes conflicts.
-	//
-	// This has to be full n^2 algorithm - we cannot match only for j which
-	// is greater than i as instructions can be prefix of one another. In
-	// other words, the relation of being conflicting is in general
-	// non-symmetrical.
-	for i, gi := range groups {
-		for j, gj := range groups {
-			if i == j {
-				continue
-			}
+// overlap checks if there exists a sequence of bytes matching both opcodes,
+// i.e. if both opcodes agree on all bits fixed by both of them.
+func overlap(o1 Opcode, o2 Opcode) bool {
+	l := len(o1.Mask)
+	if len(o2.Mask) < l {
+		l = len(o2.Mask)
+	}
 
-			for _, o := range gj.opcodes {
-				opc, ok := gi.matchInstruction(o.opcode.Bytes)
-				if ok {
-					return duplicateOpcodeErr(o, opc)
+	for i := 0; i < l; i++ {
+		if (o1.Bytes[i]^o2.Bytes[i])&o1.Mask[i]&o2.Mask[i] != 0 {
+			return false
+		}
+	}
+
+	return true
+}
+
+func checkConflicts[T Opcoder](groups []maskGroup[T]) error {
+	for i, gi := range groups {
+		for _, gj := range groups[i+1:] {
+			for _, oi := range gi.opcodes {
+				for _, oj := range gj.opcodes {
+					if overlap(oi.opcode, oj.opcode) {
+						return duplicateOpcodeErr(oi, oj)
+					}
 				}
 			}
 		}
@@ -142,10 +150,6 @@ func checkConflicts[T Opcoder](groups []maskGroup[T]) error {
 	return nil
 }
 
-// Match matches a sequence of bytes to an instruction opcode.
-//
-// It's allowed to pass bs of arbitrary length and those opcodes which can fit
-// bs will be matched.
 func (d *Matcher[T]) Match(bs []byte) (T, bool) {
 	for _, g := range d.groups {
 		ins, ok := g.matchInstruction(bs)
